@@ -74,11 +74,13 @@ func (h *chandler) OnClose(c gnet.Conn, err error) gnet.Action {
 func (h *chandler) OnTick() (time.Duration, gnet.Action) { return 5 * time.Millisecond, gnet.None }
 
 func countFds() int {
-	d, err := os.ReadDir("/proc/self/fd")
-	if err != nil {
-		return -1
+	n := 0
+	for _, t := range fdTable() {
+		if !strings.HasSuffix(t, ".oracle") { // the oracle report file of this driver
+			n++
+		}
 	}
-	return len(d)
+	return n
 }
 
 // fdTable: descriptor -> what it refers to
@@ -98,7 +100,7 @@ func fdTable() map[string]string {
 func newFds(before map[string]string) string {
 	var out []string
 	for fd, t := range fdTable() {
-		if before[fd] != t {
+		if before[fd] != t && !strings.HasSuffix(t, ".oracle") {
 			if i := strings.Index(t, ":["); i >= 0 {
 				t = t[:i] // socket:[12345] -> socket
 			}
